@@ -12,6 +12,8 @@ from props.c08 import parse_mismatches
 
 SHARDS = 8
 EXACT = "(c05_case_exact Snapshot.registry Snapshot.current)"
+SAME = "(c05_case_same Snapshot.registry Snapshot.current)"
+PROVED = "(fun c => frag (cc_facts c) (cc_val c) && ids_tree (cc_denv c) (cc_base c) (cc_val c))"
 COQ_SHARD = 40
 
 
@@ -46,7 +48,7 @@ def model_compare(R, recs, tag, extra_defs="", flags=None):
     files = []
     for sh, lo in enumerate(range(0, len(idx), COQ_SHARD)):
         rows = [recs[i] for i in idx[lo:lo + COQ_SHARD]]
-        body = ["From Skv Require Import CodecShow CodecGuards.", "From Gen Require Import Snapshot.", extra_defs,
+        body = ["From Skv Require Import CodecShow CodecGuards CodecFacts.", "From Gen Require Import Snapshot.", extra_defs,
                 f"Definition dump_cases : list (ccase * pstr) := {cases_text(rows, 'dump')}.",
                 f"Definition load_cases : list (ccase * pstr) := {cases_text(rows, 'load')}.",
                 "Eval vm_compute in mismatches_win run_dump dump_cases.",
@@ -145,20 +147,21 @@ def run(R, only=None):
     k = 3 if R.tier == "quick" else 12
     specs = only or (WITNESSES + [GV.gen_value(rnd, supported=True, max_depth=3 if R.tier == "quick" else 4) for _ in range(n)])
     recs = run_impl_codec(specs, {"protocol": snap["protocol"], "cycles": k})
-    bad, flags, idx = model_compare(R, recs, "c05", flags=["c05_case_supported", "c05_case_proved", EXACT])
-    nsup = nproved = 0
+    bad, flags, idx = model_compare(R, recs, "c05", flags=["c05_case_supported", PROVED, EXACT, SAME])
+    nsup = nproved = nexact = 0
     for j, i in enumerate(idx):
         sup = flags["c05_case_supported"][j] if j < len(flags["c05_case_supported"]) else False
-        pr = flags["c05_case_proved"][j] if j < len(flags["c05_case_proved"]) else False
+        pr = flags[PROVED][j] if j < len(flags[PROVED]) else False
         nsup += sup
         nproved += pr
-        if sup and not (flags[EXACT][j] if j < len(flags[EXACT]) else False):
-            R.obligation_broken("C05 model round trip", f"the model's loads(dumps(v)) is not exactly v for the supported value {json.dumps(specs[i])[:300]}")
+        nexact += bool(flags[EXACT][j]) if j < len(flags[EXACT]) else 0
+        if sup and not (flags[SAME][j] if j < len(flags[SAME]) else False):
+            R.obligation_broken("C05 model round trip", f"the model's loads(dumps(v)) differs from v for the supported value {json.dumps(specs[i])[:300]}")
         if not sup:
             R.count("model-guard:not-supported")
             R.obligation_broken("C05 grammar vs model guard",
                                 f"the generator's supported value {json.dumps(specs[i])[:300]} is rejected by the model's `supported` predicate")
-    R.notes["model_supported"] = f"{nsup}/{len(idx)} generated values satisfy the model's decidable `supported`; {nproved} of them lie in the fragment of C05_roundtrip_partial"
+    R.notes["model_supported"] = f"{nsup}/{len(idx)} generated values satisfy the model's decidable `supported`; {nproved} of them lie in the fragment of C05_roundtrip_partial; for {nexact} the model's loads(dumps(v)) is v itself, identity labels included (the others contain an object met twice whose __reduce__()/get_state() temporaries differ per visit)"
     for spec, rec in zip(specs, recs):
         for t, c in (rec.get("kinds") or {}).items():
             R.count("kind:" + t, c)
